@@ -12,7 +12,7 @@ import re
 from collections import defaultdict, deque
 
 _EDGE = re.compile(r'^(-?\d+) -> (-?\d+) \[label="(.*)",color="[a-z]+",fontcolor="[a-z]+"\];$')
-_NODE = re.compile(r'^(-?\d+) \[label="(.*?)"(,style = filled)?')
+_NODE = re.compile(r'^(-?\d+) \[label="((?:[^"\\]|\\.)*)"(,style = filled)?')
 
 
 class Graph:
